@@ -233,9 +233,11 @@ func c05Run(c *Ctx) {
 		c.Violate("panic:"+panicSite(pi.Stack), "panic: %s", pi.Value)
 		return
 	}
-	if envMode == "empty" && ncli == 0 && iniMode == "none" {
-		// a set-but-empty variable: the statement does not say whether it provides ""; only totality is asserted
-		c.Unspec("set-but-empty environment variable is the top source")
+	emptyProvides := envMode == "empty" && t.K == KString && (t.W == WScalar || t.W == WPtr)
+	if envMode == "empty" && ncli == 0 && iniMode == "none" && !emptyProvides {
+		// a set-but-empty variable on a non-string option: the statement does not say whether it provides a
+		// value ("" does not denote one for these types); only totality is asserted
+		c.Unspec("set-but-empty environment variable is the top source of a non-string option")
 		return
 	}
 	if envMode == "empty" {
@@ -259,6 +261,9 @@ func c05Run(c *Ctx) {
 		top, vals = "ini", iniVals
 	case envMode == "set":
 		top, vals = "env", envVals
+	case emptyProvides:
+		// the variable is set: its (empty) text is the value of a string option
+		top, vals = "env-empty", []string{""}
 	case ndef > 0:
 		top, vals = "default", focus.Defaults
 	case pre:
